@@ -31,6 +31,7 @@ func init() {
 			}},
 			{"C03.verify-option", "SkipVerify options are only written by configuration code", 1, c03VerifyOption},
 			{"C03.flag-owners", "the variable behind --skip-verify-read (and the other protection switches) is set by that flag only", 8, func(c *Ctx) { c.flagOwners() }},
+			{"C03.chunk-data-owned", "a chunk is built from bytes of its own, never from a buffer that the next request reuses", 8, func(c *Ctx) { c.chunkDataOwned() }},
 		},
 	})
 }
